@@ -148,6 +148,25 @@ func aggCase(r *hlib.Rng, s *hlib.Suite) {
 		return
 	}
 	groups := qframe.VerifGroups(g)
+	// other operations given the SAME column list (one option payload shared by several calls) must leave it, and the
+	// grouper built from it, as they were
+	keysBefore := fmt.Sprintf("%q", keyCols)
+	hlib.Recover(func() {
+		_ = qf.Distinct(groupby.Columns(keyCols...), groupby.Null(nulleq))
+		_ = qf.Distinct(groupby.Columns(keyCols...))
+		_ = qf.GroupBy(groupby.Columns(keyCols...), groupby.Null(!nulleq))
+		_ = qf.Select(keyCols...)
+		_ = qf.Drop(keyCols...)
+	})
+	if after := fmt.Sprintf("%q", keyCols); after != keysBefore {
+		d2 := map[string]interface{}{"props": []string{"C01", "C04"}}
+		for k, x := range desc {
+			if k != "props" {
+				d2[k] = x
+			}
+		}
+		s.Fail(id, fmt.Sprintf("an operation changed the column list it was given: %s became %s (a grouper built earlier from the same list is changed with it)", keysBefore, after), d2, "")
+	}
 	// aggregations
 	type aggN struct {
 		a     qframe.Aggregation
